@@ -62,6 +62,8 @@ def _drop_sample(plan, i):
         return None        # both classes must remain
     if kind == "surv" and not np.any(ynew[:, 1] != 0):
         return None        # at least one observed event must remain
+    if kind == "count" and not np.any(ynew > 0):
+        return None        # all-zero counts have no finite maximum likelihood
     p2["data"]["X"] = np.delete(X, i, axis=0).tolist()
     p2["data"]["y"] = ynew.tolist()
     da = fam.get("dargs") or {}
